@@ -72,6 +72,7 @@ def cases(tier):
             yield (ci, wd, tier)
     for ci in range(len(CONFIGS)):
         yield ("preload", ci, "abs", tier)
+    yield ("srcapi",)
     for ci in _RESULT_CONFIGS():
         yield ("cross", ci, tier)
     for ci in range(len(CONFIGS)):
@@ -351,7 +352,67 @@ def _run_preloaded(case):
     return pickle.loads(data)
 
 
+SRCAPI = {
+    "LS": [[], ["a"], ["a", "b c"], [["a", "b"], ["c"]], [["a"], "b"], [1, "x"], [[1, 2], [3], 4]],
+    "LN": [[1, 2.5], [[1, 2], [3]], [[1], 2], []],
+    "LB": [[True, False], [[True]], [1, 0]],
+    "L": [[1, "a"], [[1, 2], [3], 4], [["a", ["b"]]], [], [[[]]], [2.5, ["x y"]]],  # (no booleans here: in a command file True is a word until a BooleanParameter reads it)
+    "LL": [[[1], [2, 3]], [[1], 2], [1, 2], [[]], [[[1]]]],
+    "LLS": [[[["a"]]], [["a"]], [[["a", "b"], []], []]],
+    "S": ["a b", 5, 2.5], "N": [5, 2.5, "7"], "B": [True, "true", 0],
+}
+
+
+def _run_srcapi(case):
+    """the same argument given in a command file and as the plain Python value through add_command cleans to the same value (or the same
+    error): lists arrive from the parser wrapped item by item, from the API as they are - cleaning must not see the difference"""
+    from mpilot.program import Program
+    from mpilot.exceptions import MPilotError
+    from ..ref import grammar as G
+    from . import c15
+
+    viols, outcomes = [], {}
+    evals = 0
+    sample = None
+    libs = ("mc.vlib.echo",)
+
+    def cleaned(p):
+        cmd = p.commands["r"]
+        out = []
+        for a in cmd.arguments:
+            try:
+                out.append((a.name, "ok", _fz(("ok", cmd.inputs[a.name].clean(a.value, p, None)))))
+            except MPilotError as exc:
+                out.append((a.name, "err", type(exc).__name__))
+            except Exception as exc:
+                out.append((a.name, "raw", type(exc).__name__))
+        return out
+
+    for slot, values in SRCAPI.items():
+        for v in values:
+            evals += 1
+            text = G.render(G.items_of([("r", "Echo", [(slot, c15._src_value(v))])]))[0]
+            tag = {"parameter": slot, "value": repr(v), "text": text}
+            sample = tag
+            try:
+                ps = Program.from_source(text, libraries=libs)
+                pa = Program(libraries=libs)
+                pa.add_command(pa.find_command_class("Echo"), "r", {slot: v})
+            except Exception as exc:
+                outcomes["srcapi:load-raised:" + type(exc).__name__] = outcomes.get("srcapi:load-raised:" + type(exc).__name__, 0) + 1
+                continue
+            a, b = cleaned(ps), cleaned(pa)
+            if a != b:
+                viols.append(V("C20:ListParameter:source-and-api-differ" if slot.startswith("L") else "C20:%s:source-and-api-differ" % slot,
+                               "Echo(%s = %r): cleaned from source %r, through the API %r" % (slot, v, a, b), **tag))
+            k = "srcapi:%s" % ("same" if a == b else "differ")
+            outcomes[k] = outcomes.get(k, 0) + 1
+    return {"evals": evals, "nontrivial": evals, "judged": evals, "unspecified": 0, "states": evals, "transitions": evals * 2, "viols": viols[:20], "outcomes": outcomes, "sample": sample}
+
+
 def run(case):
+    if case[0] == "srcapi":
+        return _run_srcapi(tuple(case))
     if case[0] == "preload":
         return _run_preloaded(tuple(case))
     if case[0] == "cross":
